@@ -51,3 +51,18 @@ PROPS["C19"] = dict(
           "(base, shift, anchors) text."),
     assumptions=["log-probability arguments lie in (log-zero, 2^27] so differences do not overflow int"],
 )
+
+PROPS["C06"] = dict(
+    harness="fe",
+    level="exploration",
+    technique="differential + metamorphic property-based testing (chunked/limited runs vs single-call run, int16 vs float32, per-frame locality, closed-form frame count)",
+    level_text="Generated front-end configurations, signals, chunk plans and per-call output limits; every frame of the chunked run must be bit-identical to the single-call run, to the other encoding, and to a fresh run over the frame's own samples; frame count must match a closed form; sample accounting is exact. Exploration: no failure on the explored cases.",
+    level_note="Trusted: memcmp on float frames, the harness' closed-form frame count (itself compared with the library on every case), ASan/UBSan with each chunk in an exact-size heap block. dither is never enabled (documented random).",
+    quick=dict(cases=700, maxlen=160, budget=90),
+    thorough=dict(cases=12000, maxlen=160, budget=900),
+    rule=("choices decode to (FE configuration: sample rate, frame rate, window, nfft, transform, lifter, remove_noise, remove_dc, logspec/smoothspec, "
+          "filterbank, alpha, endian; signal length from a boundary-biased mixture incl. >128 frames and >32767+window samples; signal family; "
+          "cyclic chunk plan; cyclic per-call output limits; int16|float32). Non-trivial = >=3 frames, >=2 processing calls and at least one call "
+          "left a partial window in the overflow buffer; distinct = distinct case text."),
+    assumptions=["output limit per call >= 1 (documented loop); window >= shift (initialiser requirement)", "dither off"],
+)
